@@ -47,6 +47,8 @@ fn run_history(r: &mut Rng, k: u64, model: &mut model::Model, rep: &mut Report) 
     if with_gc {
         db.must(&format!("CREATE TABLE GC (ID INT PRIMARY KEY, CID INT, FOREIGN KEY (CID) REFERENCES CH (ID) ON DELETE {})", ACTIONS[d2].0));
     }
+    // staging table: same column types as CH, no foreign keys
+    db.must("CREATE TABLE STG (ID INT PRIMARY KEY, PID INT)");
     rep.count(&format!("on_delete_{}", ACTIONS[d1].1));
     rep.count(&format!("on_update_{}", ACTIONS[u1].1));
     if with_gc {
@@ -56,6 +58,37 @@ fn run_history(r: &mut Rng, k: u64, model: &mut model::Model, rep: &mut Report) 
     let val = |r: &mut Rng, null_ok: bool| if null_ok && r.chance(1, 6) { "NULL".to_string() } else { r.range(1, 6).to_string() };
     for _ in 0..(10 + r.below(10)) {
         let kind = r.below(100);
+        if kind >= 40 && kind < 46 {
+            // INSERT INTO child SELECT … FROM staging: bulk transfer (SELECT *), and the other paths
+            // (WHERE / column list); staging rows: valid keys, NULL keys, keys without parent
+            db.exec("DELETE FROM STG");
+            let n = 1 + r.below(4);
+            let rows: Vec<String> = (0..n).map(|i| format!("({}, {})", 10 + i as i64 + r.range(0, 1) * 10, if r.chance(1, 4) { "NULL".to_string() } else { r.range(1, 8).to_string() })).collect();
+            if !db.exec(&format!("INSERT INTO STG VALUES {}", rows.join(", "))).is_ok() {
+                continue;
+            }
+            let (what, sql) = match r.below(3) {
+                0 => ("insert_child_select_bulk", "INSERT INTO CH SELECT * FROM STG".to_string()),
+                1 => ("insert_child_select_where", "INSERT INTO CH SELECT * FROM STG WHERE ID > 0".to_string()),
+                _ => ("insert_child_select_columns", "INSERT INTO CH (ID, PID) SELECT ID, PID FROM STG".to_string()),
+            };
+            let par0 = db.scan("PAR").unwrap_or_default();
+            let stg = db.scan("STG").unwrap_or_default();
+            let ch0 = db.scan("CH").unwrap_or_default();
+            let out = db.exec(&sql);
+            rep.count(&format!("stmt_{}", what));
+            if out.is_ok() { accepted += 1 } else { rejected += 1 }
+            let has_orphan = stg.iter().any(|c| c[1] != SqlValue::Null && !par0.iter().any(|p| p[0] == c[1]));
+            rep.count(if has_orphan { "select_insert_with_orphan_row" } else { "select_insert_all_rows_valid" });
+            let bad = fkinv(&db, with_gc);
+            let ch1 = db.scan("CH").unwrap_or_default();
+            if out.is_panic() || !bad.is_empty() || (has_orphan && out.is_ok()) || (out.is_err() && ch1 != ch0) {
+                rep.fail(FailKind::Oracle, None, &format!("{}: orphan row stored, violating statement accepted, or child table changed by the failing statement", what),
+                    &format!("{}\n=> {}\norphans: {:?}", db.log.join(";\n"), out.brief(), bad));
+                break;
+            }
+            continue;
+        }
         let (what, sql): (&str, String) = if kind < 18 {
             let n = 1 + r.below(3);
             ("insert_parent", format!("INSERT INTO PAR VALUES {}", (0..n).map(|_| format!("({}, {})", r.range(1, 6), r.range(0, 9))).collect::<Vec<_>>().join(", ")))
@@ -225,6 +258,44 @@ fn probes(model: &mut model::Model, rep: &mut Report) {
     if !self_orphans(&db).is_empty() {
         rep.fail(FailKind::Oracle, Some("C12/self-reference-delete-stale-positions"), "orphan row after DELETE on a self-referencing table",
             &format!("{}\n=> {}\nrows {}\norphans {:?}", db.log.join(";\n"), out.brief(), canon::rows_seq(&after), self_orphans(&db)));
+    }
+    // INSERT INTO child SELECT … FROM a staging table without (or with other) foreign keys
+    for (src_ddl, src_name) in [
+        ("CREATE TABLE STG (ID INT PRIMARY KEY, PID INT)", "STG"),
+        ("CREATE TABLE STG (ID INT PRIMARY KEY, PID INT, FOREIGN KEY (PID) REFERENCES PAR2 (ID))", "STG"),
+    ] {
+        for (what, sel) in [
+            ("bulk", format!("INSERT INTO CH SELECT * FROM {}", src_name)),
+            ("where", format!("INSERT INTO CH SELECT * FROM {} WHERE ID > 0", src_name)),
+            ("columns", format!("INSERT INTO CH (ID, PID) SELECT ID, PID FROM {}", src_name)),
+        ] {
+            for (rows, must_reject) in [
+                ("(1, 1), (2, NULL), (3, 7)", true),   // 7 is no PAR key (it is a PAR2 key)
+                ("(3, 7)", true),
+                ("(1, 1), (2, NULL), (3, 2)", false),
+                ("(2, NULL)", false),
+            ] {
+                let mut db = Db::new();
+                db.must("CREATE TABLE PAR (ID INT PRIMARY KEY, V INT)");
+                db.must("CREATE TABLE PAR2 (ID INT PRIMARY KEY, V INT)");
+                db.must("CREATE TABLE CH (ID INT PRIMARY KEY, PID INT, FOREIGN KEY (PID) REFERENCES PAR (ID) ON DELETE CASCADE)");
+                db.must(src_ddl);
+                db.must("INSERT INTO PAR VALUES (1, 0), (2, 0)");
+                db.must("INSERT INTO PAR2 VALUES (1, 0), (2, 0), (7, 0)");
+                db.must("INSERT INTO CH VALUES (9, 1)");
+                db.must(&format!("INSERT INTO {} VALUES {}", src_name, rows));
+                let ch0 = db.scan("CH").unwrap_or_default();
+                let out = db.exec(&sel);
+                rep.count(&format!("probe_select_insert_{}", what));
+                rep.case(&format!("select-insert {} {} {}", src_ddl.len(), what, rows), true);
+                let bad = fkinv(&db, false);
+                let ch1 = db.scan("CH").unwrap_or_default();
+                if !bad.is_empty() || (must_reject && out.is_ok()) || (!must_reject && !out.is_ok()) || (out.is_err() && ch0 != ch1) {
+                    rep.fail(FailKind::Oracle, None, &format!("INSERT INTO child SELECT … ({} path) from a staging table: orphan stored / wrong accept-reject / partial insert", what),
+                        &format!("{}\n=> {}\norphans: {:?}\nCH: {}", db.log.join(";\n"), out.brief(), bad, canon::rows_seq(&ch1)));
+                }
+            }
+        }
     }
     // DROP TABLE of a referenced parent
     let mut db = Db::new();
